@@ -3,6 +3,7 @@ import vlib
 from props import clihist_common as C
 from props._client_family import *  # noqa
 
+TRANSLATORS = ["shutdown_order"]
 MODELS = ["clihist", "clifault"]
 BINS = {"release": ["clihist", "clifault"], "debug": ["clihist", "clifault"]}
 DEBUG_IN_QUICK = True
